@@ -8,10 +8,10 @@ Import ListNotations.
 From GMS Require Import Sys.ProcessList Sys.C36ReadOnly.
 Open Scope N_scope.
 
-Inductive case := Case (queries : list N) (tcd trd : Z) (nprocs : N) (questions : Z).
+Inductive case := Case (queries : list N) (tcd trd : Z) (nprocs : N) (questions : Z) (ncaches : N).
 
 Definition ok (c : case) : bool :=
-  let 'Case ksN tcd trd np q := c in
+  let 'Case ksN tcd trd np q nc := c in
   let ks := map N.to_nat ksN in
   let es := all_events 1 ks in
   let s := run init es in
@@ -19,6 +19,7 @@ Definition ok (c : case) : bool :=
   | Some sp =>
       Z.eqb (tc s) tcd && Z.eqb (tr s) trd && N.eqb (N.of_nat (length (processes s))) np &&
       Z.eqb (Z.of_nat (fold_right Nat.add O ks)) q &&
+      N.eqb nc 0 &&   (* every cache disposed: C36_cache_registry_consistent *)
       match sess sp with [] => true | _ => false end
   | None => false
   end.
